@@ -68,7 +68,7 @@ def run_replay(path, repo):
     return None, out
 
 
-def match_known(known, pid, kind, function, label, key=None):
+def match_known(known, pid, kind, function, label, key=None, tag=None):
     for k in known:
         if k.get("property") != pid or k.get("status") != "known":
             continue
@@ -77,6 +77,8 @@ def match_known(known, pid, kind, function, label, key=None):
             continue
         if kind == "obligation":
             if m.get("function") == function and m.get("obligation") == label:
+                if "tag_re" in m and not re.fullmatch(m["tag_re"], tag or ""):
+                    continue
                 return k
         elif kind in ("bounded", "ground"):
             if key is None:
@@ -122,7 +124,8 @@ def main():
     crashes = []
 
     # ------------------------------------------------------------------ proofs
-    proof_reports = R.run_pool(R.run_proof_job, [(repo, spec) for spec in plan.proofs])
+    specs = list(plan.proofs) + (list(plan.more_proofs) if tier == "thorough" else [])
+    proof_reports = R.run_pool(R.run_proof_job, [(repo, spec) for spec in specs])
     lemma_reports = R.run_pool(R.run_lemma_job, list(plan.lemmas))
     n_obl = n_dis = 0
     n_known_obl = 0
@@ -163,7 +166,7 @@ def main():
             if not exact:
                 undecided.append(name + " (counter-model crosses an abstract contract)")
                 continue
-            k = match_known(known, pid, "obligation", rep["function"], label)
+            k = match_known(known, pid, "obligation", rep["function"], label, tag=rep.get("tag"))
             path, ok = None, None
             for n, f in enumerate(fs[:6]):
                 text = f.get("replay")
